@@ -2678,6 +2678,9 @@ class SX:
                      else N(self.ctx.call('abs', self.num_arg(v)), getattr(v, 'py', None)))]
         if name in ('sqrt', 'atan', 'sin', 'cos', 'tan', 'asin', 'acos', 'exp', 'log'):
             return [(st, N(self.ctx.call(name, self.num_arg(args[0])), 'float'))]
+        if name in ('float', 'int') and len(args) == 1 and isinstance(args[0], (Unk, Sv)):
+            # a number parsed back from text (`float(f'{x:.6g}')`): some other number than the one formatted - an opaque value
+            return [(st, N(Rat.atom(f'parsed-from-text[{getattr(n, "lineno", 0)}:{getattr(n, "col_offset", 0)}]'), name))]
         if name == 'float' and len(args) == 1 and isinstance(args[0], (N, Dyn)):
             return [(st, N(args[0].term, name))]
         if name == 'int' and len(args) == 1 and isinstance(args[0], (N, Dyn)):
